@@ -6180,6 +6180,7 @@ class CodegenCtx:
         result.add(f"#define inval 255") # generate a define for this so that hooks still work
         with result as contents:
             # Generate a big switch statement for all states
+            contents.add("repeatswitch:")
             contents.add("switch (state->state) {")
             for idx, state in enumerate(self.dfa.states):
                 # Emit the case label
